@@ -27,7 +27,7 @@ from pathlib import Path
 import vlib
 
 CLANG = "clang++-14"
-VERSION = "11"          # bump to invalidate the cache when the extraction logic changes
+VERSION = "12"          # bump to invalidate the cache when the extraction logic changes
 
 # ---------------------------------------------------------------------------------------------------- reviewed lists
 # functions that make up the reset path of the engine.  Everything these functions call on `this` must be either in
@@ -51,6 +51,7 @@ RESET_IGNORED = {
     "string_hsave": "interns a string into strings_map (cleared by strings_map_clear)",
     "logk_store": "creates the built-in XconstantX entry in logk/logk_map (both cleared by clean_up)",
     "read_log_k_only": "parses a literal into the new logk entry",
+    "logk_copy2orig": "copies log_k to log_k_original inside the new built-in logk entry (no member of class Phreeqc written)",
     "get_input_errors": "getter",
     "output_flush": "io",
     "error_msg": "io", "warning_msg": "io", "output_msg": "io", "sformatf": "formatting into sformatf_buffer (re-allocated by init)",
@@ -181,6 +182,8 @@ class FnSummary:
         self.writes = set()
         self.calls = set()
         self.mcalls = set()      # "path.method" / "path->method": method calls on member objects
+        self.frees = set()       # pointer members released: delete p / delete[] p / free_check_null(p) / PHRQ_free(p)
+        self.allocs = set()      # pointer members assigned from new / PHRQ_malloc / PHRQ_calloc / PHRQ_realloc
 
     def note(self, r, how, in_loop):
         if r is None:
@@ -195,14 +198,39 @@ class FnSummary:
             self.resets.add(p)
 
 
+def has_alloc(n):
+    if not isinstance(n, dict):
+        return False
+    if n.get("kind") == "CXXNewExpr":
+        return True
+    if n.get("kind") == "CXXMemberCallExpr" and n.get("inner"):
+        c, _ = strip(n["inner"][0])
+        if c is not None and c.get("name") in ("PHRQ_malloc", "PHRQ_calloc", "PHRQ_realloc"):
+            return True
+    return any(has_alloc(c) for c in n.get("inner", []))
+
+
 def walk(n, S, owner_ptr, in_loop=False):
     if not isinstance(n, dict):
         return
     k = n.get("kind")
     inner = n.get("inner", [])
+    if k == "CXXDeleteExpr" and inner:
+        r = root_path(inner[0], owner_ptr)
+        if r and r[1] == "whole":
+            S.frees.add(r[0])
+    if k == "CXXMemberCallExpr" and inner:
+        c0, _ = strip(inner[0])
+        if c0 is not None and c0.get("name") in ("free_check_null", "PHRQ_free") and len(inner) > 1:
+            r = root_path(inner[1], owner_ptr)
+            if r and r[1] == "whole":
+                S.frees.add(r[0])
     if k == "BinaryOperator" and n.get("opcode") == "=":
         # chained a = b = c : the inner assignment is visited by the recursion below
         S.note(root_path(inner[0], owner_ptr), "assign", in_loop)
+        r0 = root_path(inner[0], owner_ptr)
+        if r0 and r0[1] == "whole" and len(inner) > 1 and has_alloc(inner[1]):
+            S.allocs.add(r0[0])
     elif k == "CompoundAssignOperator":
         S.note(root_path(inner[0], owner_ptr), "modify", in_loop)
     elif k == "UnaryOperator" and n.get("opcode") in ("++", "--"):
@@ -337,7 +365,7 @@ def parse_objects(txt):
 def summarize_tu(tu, cls, owner_ptr=None):
     """returns dict(fields=[(name,type,static?)] or None, methods={name: {resets,writes,calls,file,line}}, ctor_inits=[...])"""
     r = subprocess.run(_cmd(tu, "PHRQ_io" if cls == "PHRQ_io" else "Phreeqc"), capture_output=True, text=True)
-    if r.returncode != 0 and not r.stdout:
+    if r.returncode != 0:
         raise RuntimeError(f"clang failed on {tu}: {r.stderr[-500:]}")
     fields, bases = None, []
     method_types = {}
@@ -401,7 +429,9 @@ def summarize_tu(tu, cls, owner_ptr=None):
         if d.get("kind") == "CXXDestructorDecl":
             name = "<dtor>"
         loc = d.get("loc", {})
-        e = methods.setdefault(name, dict(resets=set(), writes=set(), calls=set(), mcalls=set(), where=[]))
+        e = methods.setdefault(name, dict(resets=set(), writes=set(), calls=set(), mcalls=set(), frees=set(), allocs=set(), where=[]))
+        e["frees"] |= S.frees
+        e["allocs"] |= S.allocs
         e["resets"] |= S.resets
         e["writes"] |= S.writes
         e["calls"] |= S.calls
@@ -415,6 +445,7 @@ def summarize_tu(tu, cls, owner_ptr=None):
     return dict(fields=fields, bases=bases, types=types,
                 methods={k: dict(resets=sorted(v["resets"]), writes=sorted(v["writes"]), calls=sorted(v["calls"]),
                                  mcalls=sorted(v["mcalls"]), where=v["where"], prologue=v.get("prologue"),
+                                 frees=sorted(v["frees"]), allocs=sorted(v["allocs"]),
                                  top_resets=sorted(v.get("top_resets", [])), top_mcalls=sorted(v.get("top_mcalls", [])))
                          for k, v in methods.items()})
 
@@ -437,7 +468,17 @@ def _one(args):
     cf = Path(cdir) / f"{Path(tu).name}.{cls}.{key[:16]}.json"
     if cf.exists():
         return str(tu), json.loads(cf.read_text()), True
-    s = summarize_tu(tu, cls, owner)
+    s, last = None, None
+    for attempt in range(4):                 # clang is occasionally killed on a heavily loaded machine: retry before failing closed
+        try:
+            s = summarize_tu(tu, cls, owner)
+            break
+        except Exception as e:
+            last = e
+            import time
+            time.sleep(2 + 3 * attempt)
+    if s is None:
+        raise last
     for old in Path(cdir).glob(f"{Path(tu).name}.{cls}.*.json"):
         old.unlink()
     cf.write_text(json.dumps(s))
@@ -488,8 +529,9 @@ def merged(res, cls):
         for k, v in s["types"].items():
             types.setdefault(k, v)
         for k, v in s["methods"].items():
-            e = M.setdefault(k, dict(resets=set(), writes=set(), calls=set(), mcalls=set(), top_resets=set(), top_mcalls=set(), where=[]))
-            for q in ("resets", "writes", "calls", "mcalls", "top_resets", "top_mcalls"):
+            e = M.setdefault(k, dict(resets=set(), writes=set(), calls=set(), mcalls=set(), top_resets=set(), top_mcalls=set(), frees=set(),
+                                     allocs=set(), where=[]))
+            for q in ("resets", "writes", "calls", "mcalls", "top_resets", "top_mcalls", "frees", "allocs"):
                 e[q] |= set(v.get(q) or [])
             e["where"] += v["where"]
             if v.get("prologue"):
@@ -596,8 +638,8 @@ def policy():
     out = {}
     for m in re.finditer(r"^def (\w+) : List \(String × String\) :=\n(.*?)(?=^\S|\Z)", src, re.M | re.S):
         out[m.group(1)] = re.findall(r'\("((?:[^"\\]|\\.)*)",\s*"((?:[^"\\]|\\.)*)"\)', m.group(2))
-    for k in ("healed", "scratch", "fileNames", "ioHealed", "wrapperClass", "healedBy", "scratchWriter", "ioHealedBy"):
-        if k not in out or (not out[k] and k not in ("scratchWriter", "ioHealedBy", "healedBy")):
+    for k in ("healed", "scratch", "fileNames", "ioHealed", "wrapperClass", "healedBy", "scratchWriter", "ioHealedBy", "freedElsewhere"):
+        if k not in out or (not out[k] and k not in ("scratchWriter", "ioHealedBy", "healedBy", "freedElsewhere")):
             raise RuntimeError(f"ResetPolicy.lean: list {k} not found")
     return out
 
@@ -765,6 +807,8 @@ def spec_holds(a, member, spec):
         return member in fn["writes"]
     if w[0] == "topcall":
         return f"{member}.{w[2]}" in fn["top_mcalls"]
+    if w[0] == "frees":
+        return member in fn["frees"]
     if w[0] == "call":
         return f"phrq_io->{w[2]}" in fn["mcalls"]
     return False
@@ -772,7 +816,7 @@ def spec_holds(a, member, spec):
 
 def policy_evidence(a):
     ev = []
-    for key in ("healedBy", "scratchWriter", "ioHealedBy"):
+    for key in ("healedBy", "scratchWriter", "ioHealedBy", "freedElsewhere"):
         for member, spec in a["pol"].get(key, []):
             if spec_holds(a, member, spec):
                 ev.append((member, spec))
@@ -858,8 +902,23 @@ def emit_lean(a):
         if n in expl or n.split(".")[0] in expl:
             dm |= 1 << idx[n]
     L.append(f"/-- bit i set iff member i, or its parent member, is in scratchIds/healedIds/fileNamesIds/knownUnreset (checked by `dead_mask_ok`) -/\ndef deadMask : Nat := {dm}\n")
+    M = a["M"]
+    tmap = {f[0]: f[1] for f in a["fields"]}
+    ptrs = [n for n in a["top"] if tmap.get(n, "").endswith("*") or "(*)" in tmap.get(n, "")]
+    owned, freed = set(), set()
+    for fn, m in M.items():
+        if fn not in ("<ctor-copy>", "InternalCopy", "operator="):
+            owned |= m["allocs"]
+    for fn in RESET_CLEAN:
+        if fn in M:
+            freed |= M[fn]["frees"]
+    L.append(f"/-- pointer-typed data members of class Phreeqc -/\ndef pointerMembers : List Nat := {nat_list(ids(ptrs))}\n")
+    L.append(f"/-- pointer members that some function assigns from new / PHRQ_malloc / PHRQ_calloc / PHRQ_realloc (owning pointers) -/\ndef ownedPointers : List Nat := {nat_list(ids(owned))}\n")
+    L.append(f"/-- pointer members released (delete / free_check_null / PHRQ_free) by {', '.join(RESET_CLEAN)} -/\ndef freedInCleanUp : List Nat := {nat_list(ids(freed))}\n")
+    fe = [n for n, _ in a["pol"].get("freedElsewhere", [])]
+    L.append(f"def freedElsewhereIds : List Nat := {nat_list([idx[n] for n in fe if n in idx])}\n")
     ev = policy_evidence(a)
-    a["policy_evidence_missing"] = [(m, sp) for key in ("healedBy", "scratchWriter", "ioHealedBy") for m, sp in a["pol"].get(key, []) if (m, sp) not in ev]
+    a["policy_evidence_missing"] = [(m, sp) for key in ("healedBy", "scratchWriter", "ioHealedBy", "freedElsewhere") for m, sp in a["pol"].get(key, []) if (m, sp) not in ev]
     L.append("/-- (member, claimed code shape) pairs of ResetPolicy.healedBy / scratchWriter / ioHealedBy that the AST confirms:\n"
              "    top:F = unconditional reset-form statement at the top level of F; any:F = reset-form anywhere in F; writes:F = F writes it;\n"
              "    topcall:F:M = unconditional top-level call member.M() in F; call:F:M = F calls phrq_io->M -/")
